@@ -426,6 +426,78 @@ def state_checks(real, twin, untagged_twin_maker, res, case):
   return True
 
 
+def run_construct_varargs(res):
+  """Constructor calls with TaggedValues in *args slots: the tags land on the
+  slot's index; the configuration builds to the direct call, or fails to
+  build when a slot without a value lies below one with a value."""
+  options = [('absent',), ('plain',), ('tv', 'A', True), ('tv', 'C', False),
+             ('tv', 'B', True)]
+  for cname, cls in (('Config', fdl.Config), ('Partial', fdl.Partial)):
+    for o0, o1, o2 in itertools.product(options, repeat=3):
+      opts = [o0, o1, o2]
+      # absent only as a suffix
+      seen_absent = False
+      ok = True
+      for o in opts:
+        if o[0] == 'absent':
+          seen_absent = True
+        elif seen_absent:
+          ok = False
+      if not ok:
+        continue
+      case = {'construct_varargs': [cname] + [list(o) for o in opts]}
+      args = ['p0', 'a']
+      for i, o in enumerate(opts):
+        if o[0] == 'plain':
+          args.append(f'V{i}')
+        elif o[0] == 'tv':
+          args.append(TAGS[o[1]].new(f'T{i}') if o[2] else TAGS[o[1]].new())
+      res.states += 1
+      res.evals += 1
+      res.nontrivial += 1
+      res.transitions += 1
+      try:
+        real = cls(N.node_pos, *args)
+      except Exception as e:  # pylint: disable=broad-except
+        res.violation('C14/constructor-raises/node_pos-varargs',
+                      f'{case}: {e!r}', case)
+        continue
+      res.outcomes['construct_varargs:ok'] += 1
+      twin = cls(N.node_pos)
+      twin.__arguments__[0] = 'p0'
+      twin.__arguments__['a'] = 'a'
+      for i, o in enumerate(opts):
+        if o[0] == 'plain':
+          twin.__arguments__[2 + i] = f'V{i}'
+        elif o[0] == 'tv':
+          if o[2]:
+            twin.__arguments__[2 + i] = f'T{i}'
+          twin.__argument_tags__[2 + i].add(TAGS[o[1]])
+      if canon.canon_cfg(real) != canon.canon_cfg(twin):
+        res.violation('C14/constructor-tags/node_pos-varargs',
+                      f'{case}: real {real!r} tags '
+                      f'{dict(real.__argument_tags__)}', case)
+        continue
+      if cls is fdl.Config:
+        vfx.reset()
+        try:
+          built = canon.canon_built(fdl.build(real))
+        except Exception as e:  # pylint: disable=broad-except
+          built = ('raise', type(e).__name__)
+        vfx.reset()
+        # a slot without a value below a slot with one: no such call exists
+        vals = [o[0] == 'plain' or (o[0] == 'tv' and o[2]) for o in opts
+                if o[0] != 'absent']
+        hole = any(not v and any(vals[j + 1:]) for j, v in enumerate(vals))
+        direct = (('raise',) if hole else
+                  canon.canon_built(N.node_pos(*real[:])))
+        if hole and built[0] == 'raise':
+          continue
+        if built != direct:
+          res.violation('C14/tagged-constructor-arguments-build-differs',
+                        f'{case}: build {built} direct call {direct}', case)
+
+
 def strip_tags(root):
   for n in reachable_buildables(root):
     if type(n).__name__ == 'TaggedValueCls':
@@ -514,6 +586,7 @@ def run_unit(unit, tier, seed):
   res = core.Result()
   if unit == 'construct':
     run_construct(res)
+    run_construct_varargs(res)
     res.sample({'constructor_calls': res.states})
     return res
   for idx, shape in enumerate(all_cases(b)):
@@ -533,6 +606,12 @@ def _shape(x):
 
 def replay(case):
   res = core.Result()
+  if 'construct_varargs' in case:
+    run_construct_varargs(res)
+    res.violations = [v for v in res.violations if v['case'] == case]
+    for v in res.violations:
+      print(v['what'])
+    return res
   if 'construct' in case:
     run_construct(res)
     res.violations = [v for v in res.violations if v['case'] == case]
